@@ -1578,13 +1578,20 @@ func (r *Raft) InstallSnapshot(
 		r.logger.Fatalf("failed to get snapshot file: error = %v", err)
 	}
 
+	// The snapshot is in place, but the log has not been replaced yet and may conflict with it.
+	// AppendEntries must be rejected from here on, also while waiting for an operation that is
+	// still being applied: the lock is released while waiting.
+	r.restoring = true
+
 	// An operation that is still being applied must not land on top of the restored state.
 	if !r.pauseApply() {
+		r.restoring = false
 		return nil
 	}
 
 	// Operations may have been applied while waiting. Never move the state machine backwards.
 	if r.lastApplied >= request.LastIncludedIndex {
+		r.restoring = false
 		r.resumeApply()
 		if err := snapshot.Close(); err != nil {
 			r.logger.Fatalf("failed to close snapshot file: error = %v", err)
